@@ -32,6 +32,8 @@ Definition same_result (keep : Z -> bool) (nres : nat) (a b : outcome) : verdict
   end.
 
 Definition FUEL := Nat.mul 60 100.
+(* the i32 cells of memory 0 the interpreter models, initially 0 like the memory itself *)
+Definition MEM_CELLS := 8%nat.
 
 Definition flagged_body (c : scase) : option (list (fop * flags)) :=
   match apply_plan false (c_plan (s_l c)) (map (fun o => (o, no_flags)) (c_body (s_l c))) false with
@@ -53,8 +55,8 @@ Definition check_one (keep : Z -> bool) (c : scase) (args : list Z) : verdict :=
   | Some (t, fe), Some (t', fe'), Some fb =>
       (* the code files the entry probes *after* the user's before-probes of instruction 0 *)
       let flags_at i := let f := flags_fn fb i in if Nat.eqb i 0 then w_before (c_entry l) f else f in
-      let c0 := mkC (args ++ zeros (c_numlocals l)) [0%Z] [] [] in
-      let c0' := mkC (args ++ zeros (obs_numlocals c)) [0%Z] [] [] in
+      let c0 := mkC (args ++ zeros (c_numlocals l)) (0%Z :: repeat 0%Z MEM_CELLS) [] [] in
+      let c0' := mkC (args ++ zeros (obs_numlocals c)) (0%Z :: repeat 0%Z MEM_CELLS) [] [] in
       same_result keep (s_nres c)
         (exec_fn (ftypes_of c) flags_at [] (c_exit l) true FUEL t fe c0)
         (exec_fn (ftypes_of c) (fun _ => no_flags) [] [] false FUEL t' fe' c0')
